@@ -363,8 +363,9 @@ impl StringDecoder for Utf8Decoder {
             .to_owned();
 
         // Update the cursor position
-        // The +1 is to skip the delimiter
-        *cursor += position + 1;
+        // The +1 is to skip the delimiter (if there was none, the string ran to
+        // the end of the data and there is nothing to skip)
+        *cursor += (position + 1).min(data.len());
 
         Ok(result)
     }
